@@ -376,7 +376,9 @@ func driveGen(args []string) error {
 				t := newTracedRenderer(w, id+"/P1", rect)
 				nc := 0
 				fd := &fwdDest{dest: t.rd, onCall: func(c Call) { nc++; t.do(c) },
-					onRead: func(which string, v uint8) { w.Emit(map[string]interface{}{"ev": "read", "which": which, "val": int(v)}) }}
+					onRead: func(which string, v uint8) {
+						w.Emit(map[string]interface{}{"ev": "read", "which": which, "val": int(v)})
+					}}
 				os.Stdout = devnull
 				runSteps(st, wrap(fd), w, &nc)
 				os.Stdout = stdout
